@@ -100,9 +100,21 @@ Theorem C03_roundtrip_equiv_bbfree : ∀ C b π m rsv,
     equiv_on (outputs (c_g C)) (c_g C) (c_g C').
 Proof.
   intros C b π m rsv (Hl & Hg & Hn & _ & Hcl) Hb Hp Hx Hw Hids. rewrite Hb.
-  exact (roundtrip_equiv_bbfree C b π m rsv _ (lint_clean_rte C rt_flags Hl Hg Hn Hcl Hx Hp) Hb Hw Hids).
+  exact (roundtrip_equiv_bbfree_outputs C b π m rsv _ (lint_clean_rte C rt_flags Hl Hg Hn Hcl Hx Hp) Hb Hw Hids).
 Qed.
 Print Assumptions C03_roundtrip_equiv_bbfree.
+(* the same with the equivalence at *every node* of the original circuit (every node of the original is a node of the read-back
+   circuit and carries the same function), not only at the outputs *)
+Theorem C03_roundtrip_equiv_bbfree_nodes : ∀ C b π m rsv,
+  wf_rt C → c_bbs C = ∅ → no_pins (c_g C) → no_x (c_g C) → write C b π = Ok m → list_to_set (module_ids m) ⊆ rsv →
+  ∃ C', read rsv (bbdefs_of C) m = Ok C' ∧
+    c_name C' = c_name C ∧ inputs (c_g C') = inputs (c_g C) ∧ outputs (c_g C') = outputs (c_g C) ∧ c_bbs C' = c_bbs C ∧
+    equiv_on (dom (c_g C)) (c_g C) (c_g C').
+Proof.
+  intros C b π m rsv (Hl & Hg & Hn & _ & Hcl) Hb Hp Hx Hw Hids. rewrite Hb.
+  exact (roundtrip_equiv_bbfree C b π m rsv _ (lint_clean_rte C rt_flags Hl Hg Hn Hcl Hx Hp) Hb Hw Hids).
+Qed.
+Print Assumptions C03_roundtrip_equiv_bbfree_nodes.
 
 (* non-vacuity: a circuit with a blackbox, a constant and an escaped name satisfies wf_rt, is written and read back *)
 Definition ex_C : Circuit := Cases.mk "top"
